@@ -193,6 +193,25 @@ func famC01(e *emitter, g *gen.G, thorough bool) {
 		e.emit(fmt.Sprintf("fieldlen%d/Conts", n), c)
 		e.emit(fmt.Sprintf("fieldlen%d/Slices", n), &s)
 	}
+	// messages longer than the 4096-octet read buffer of Decode: every payload straddles a refill somewhere
+	for _, n := range []int{460, 520, 1200} {
+		g.Reset()
+		ls := make([]int64, n)
+		fs := make([]float64, n)
+		ts := make([]time.Time, n)
+		for i := range ls {
+			ls[i] = int64(g.R.Uint64()) | 1<<40
+			fs[i] = g.R.NormFloat64() * 1e10
+			ts[i] = time.Unix(int64(g.R.Intn(2000000000)), int64(1+g.R.Intn(998))*1000000)
+		}
+		e.emit(fmt.Sprintf("long%d/[]int64", n), ls)
+		e.emit(fmt.Sprintf("long%d/[]float64", n), fs)
+		e.emit(fmt.Sprintf("long%d/[]time.Time", n), ts)
+		e.emit(fmt.Sprintf("long%d/Slices", n), &zoo.Slices{I64s: ls, F64s: fs, Ts: ts})
+		for _, pad := range []int{4040 + n%60, 4070, 4085, 4090, 4095} {
+			e.emit(fmt.Sprintf("pad%d/Scalars", pad), zoo.Scalars{S: g.String(pad, 0), I64: ls[0], F64: fs[0], T: ts[0], U64: uint64(ls[1])})
+		}
+	}
 	// 1..20 distinct classes per message; k-th class inside a list
 	for k := 1; k <= 20; k++ {
 		e.emit(fmt.Sprintf("classes%d/[]interface{}", k), wideElems(k))
@@ -201,6 +220,11 @@ func famC01(e *emitter, g *gen.G, thorough bool) {
 	}
 	g.Reset()
 	e.emit("wide", g.Value(reflect.TypeOf(zoo.Wide{}), 0).Interface())
+	// class-definition indexes beyond one octet: 255, 256, 257, 272, 300 classes in one message
+	for _, k := range []int{255, 256, 257, 272, 300} {
+		m := zoo.ManyClasses(k)
+		e.emit(fmt.Sprintf("manyclasses%d", k), append(append([]interface{}{}, m...), m[k-1], m[0]))
+	}
 }
 
 func famC07(e *emitter, g *gen.G, thorough bool) {
@@ -349,6 +373,19 @@ func famC09(e *emitter, g *gen.G, thorough bool) {
 			e.emit(fmt.Sprintf("binlist%d", n), []interface{}{b, []byte{}, b})
 			e.emit(fmt.Sprintf("binmap%d", n), map[string][]byte{"k": b, "e": {}})
 		}
+	}
+	for i, cp := range []rune{0x7f, 0x80, 0x7ff, 0x800, 0xd7ff, 0xe000, 0xfffc, 0xfffd, 0xfffe, 0xffff, 0x10000, 0x10ffff} {
+		sp := string([]rune{'a', cp, 'b', cp, cp})
+		e.emit(fmt.Sprintf("cp%d/top", i), sp)
+		e.emit(fmt.Sprintf("cp%d/field", i), zoo.HStr{V: sp})
+		e.emit(fmt.Sprintf("cp%d/list", i), []string{sp, "x", string(cp)})
+		e.emit(fmt.Sprintf("cp%d/map", i), map[string]string{sp: string(cp), "k": sp})
+	}
+	for pad := 4078; pad <= 4098; pad++ {
+		ps := g.String(pad, 0)
+		e.emit(fmt.Sprintf("straddle%d/str", pad), []interface{}{ps, g.String(1800, 0), "tail"})
+		e.emit(fmt.Sprintf("straddle%d/bin", pad), []interface{}{ps, make([]byte, 1200), []byte{1, 2}})
+		e.emit(fmt.Sprintf("straddle%d/field", pad), &zoo.Scalars{S: ps, Bin: make([]byte, 1200)})
 	}
 	for _, big := range []int{4097, 5000, 9000, 2049, 2100} {
 		bb := make([]byte, big)
@@ -585,6 +622,28 @@ func famC04(e *emitter, g *gen.G, thorough bool) {
 		a.A, a.B = b, c
 		e.emit(fmt.Sprintf("shared/%d", v), a)
 	}
+	// (iii') a chain whose last node points back at node k: every ordinal 0..69, and around the 2-octet int boundary
+	for k := 0; k < 70; k++ {
+		ns := make([]*zoo.Node, 72)
+		for i := range ns {
+			ns[i] = &zoo.Node{Name: "c"}
+			if i > 0 {
+				ns[i-1].A = ns[i]
+			}
+		}
+		ns[71].B = ns[k]
+		e.emit(fmt.Sprintf("chain72/back%d", k), ns[0])
+	}
+	for _, k := range []int{2044, 2045, 2046, 2047, 2048} {
+		// flat: a root holding 2100 nodes in a list; the last one points back at node k
+		// (ordinals around the 2-octet int boundary without deep nesting)
+		ns := make([]*zoo.Node, 2100)
+		for i := range ns {
+			ns[i] = &zoo.Node{}
+		}
+		ns[2099].B = ns[k]
+		e.emit(fmt.Sprintf("flat2100/back%d", k), &zoo.Node{Name: "root", L: ns})
+	}
 	// (iv) seeded random graphs, up to ~200 nodes
 	nr := 30
 	if thorough {
@@ -631,7 +690,13 @@ func famC06(e *emitter, g *gen.G, thorough bool) {
 		g.MaxLen = 3
 		g.MaxDepth = 3
 		vals := make([]interface{}, 0, n)
-		var ptrs []interface{}
+		var ptrs, conts []interface{}
+		if i%10 == 3 { // more than 16 classes on one stream
+			for _, w := range wideElems(20) {
+				vals = append(vals, w)
+			}
+			vals = append(vals, wideElems(20)[16], wideElems(20)[17])
+		}
 		for j := 0; j < n; j++ {
 			switch c := g.R.Intn(14); {
 			case c == 0:
@@ -651,11 +716,21 @@ func famC06(e *emitter, g *gen.G, thorough bool) {
 				g.R.Read(b)
 				vals = append(vals, b)
 			case c == 7:
-				vals = append(vals, g.Value(reflect.TypeOf([]int32{}), 0).Interface())
+				l := g.Value(reflect.TypeOf([]int32{}), 0).Interface()
+				vals = append(vals, l)
+				if len(l.([]int32)) > 0 {
+					conts = append(conts, l)
+				}
 			case c == 8:
-				vals = append(vals, g.Value(reflect.TypeOf(map[string]int32{}), 0).Interface())
+				m := g.Value(reflect.TypeOf(map[string]int32{}), 0).Interface()
+				vals = append(vals, m)
+				if len(m.(map[string]int32)) > 0 {
+					conts = append(conts, m)
+				}
 			case c == 9 && len(ptrs) > 0: // the very object sent earlier
 				vals = append(vals, ptrs[g.R.Intn(len(ptrs))])
+			case c == 7 && len(conts) > 0 && g.R.Intn(2) == 0: // the very slice / map sent earlier
+				vals = append(vals, conts[g.R.Intn(len(conts))])
 			case c == 10:
 				vals = append(vals, g.Time())
 			case c == 11:
